@@ -14,6 +14,9 @@
 #ifndef VF_CORE
 #define VF_CORE 0
 #endif
+#ifndef VF_CONT
+#define VF_CONT 0
+#endif
 #ifndef VF_MULT
 #define VF_MULT 4.0
 #endif
@@ -47,6 +50,27 @@ VF_MAIN
   VF_ASSUME(in_taps[0] == 0);
   nc4 = (VF_CORE & CORE_SIMD_POLY)? (((int)in_nc + 3) & ~3) : (int)in_nc;
   len = nc4 * (int)in_np * (VF_ORDER + 1);
+#if VF_CONT
+  /* continuity lemma (C01: fractional-delay interpolation of the coefficients): the order-k polynomial stored for (phase j, tap i),
+   * evaluated at x = 1, equals the order-0 coefficient of the NEXT phase of the same prototype position - i.e. the interpolated
+   * coefficient runs through the prototype samples, for every entry and both table layouts (basis inputs: one tap, multiple of 12) */
+  { int ph, tp, ord_; real * tt; (void)tm;
+    for (i = 0; i < NC * NP; ++i) VF_ASSUME(in_taps[i] == (double)((long)in_taps[i] / 12 * 12));
+    tt = prepare_poly_fir_coefs(in_taps, (int)in_nc, (int)in_np, VF_ORDER, 1., VF_CORE, &mem);
+    for (ph = 0; ph + 1 < NP; ++ph) for (tp = 0; tp < NC; ++tp) {
+      double v = 0, nxt;
+      for (ord_ = VF_ORDER; ord_ >= 0; --ord_)
+#if VF_CORE & 2
+        v += (VF_CORE & 1)? (double)coef4((double *)tt, VF_ORDER, nc4, ph, ord_, tp) : (double)coef4((float *)tt, VF_ORDER, nc4, ph, ord_, tp);
+      nxt = (VF_CORE & 1)? (double)coef4((double *)tt, VF_ORDER, nc4, ph + 1, 0, tp) : (double)coef4((float *)tt, VF_ORDER, nc4, ph + 1, 0, tp);
+#else
+        v += (VF_CORE & 1)? (double)coef((double *)tt, VF_ORDER, nc4, ph, ord_, tp) : (double)coef((float *)tt, VF_ORDER, nc4, ph, ord_, tp);
+      nxt = (VF_CORE & 1)? (double)coef((double *)tt, VF_ORDER, nc4, ph + 1, 0, tp) : (double)coef((float *)tt, VF_ORDER, nc4, ph + 1, 0, tp);
+#endif
+      VF_ASSERT(fabs(v - nxt) <= 1e-6 * (1 + fabs(nxt)), "interpolated coefficient polynomial at x = 1 meets the next phase's prototype sample (C01)");
+    }
+    VF_WITNESS(); return; }
+#endif
   t1 = prepare_poly_fir_coefs(in_taps, (int)in_nc, (int)in_np, VF_ORDER, 1., VF_CORE, &mem);
   tm = prepare_poly_fir_coefs(in_taps, (int)in_nc, (int)in_np, VF_ORDER, VF_MULT, VF_CORE, &mem);
   for (i = 0; i < MAXLEN; ++i) if (i < len) {
